@@ -23,6 +23,7 @@ GLOBAL_ASSUMPTIONS = [
 ]
 
 
+COMPONENT_PROPS = {"C06", "C10", "C18", "C19", "C20"}  # replay/components.py: native search for the data components
 SCENARIO_PROPS = {"C01", "C02", "C03", "C04", "C05", "C07", "C08", "C09", "C11", "C12", "C13", "C14", "C15", "C16"}
 
 
@@ -124,6 +125,8 @@ def finish(prop, tier, seed, tasks, results, wall, known, extra=None):
         script = getattr(t, "replay_script", None) if t else None
         if script is None and prop in SCENARIO_PROPS:
             script = "scenario.py"  # native scenario search with property oracles, seeded by the counter-model
+        elif script is None and prop in COMPONENT_PROPS:
+            script = "components.py"
         payload = None
         if name.startswith("regression-of-fixed-finding/"):
             # the witness of the fixed finding is the failing input, and it has just been replayed on this tree
@@ -134,6 +137,11 @@ def finish(prop, tier, seed, tasks, results, wall, known, extra=None):
                 payload = {"obligation": name, "model": o.get("model"), "detail": o.get("detail"), "property": prop,
                            "budget_s": 20, "seed": seed}
                 rep = replay_native(script, payload)
+                if not (rep or {}).get("reproduced") and script == "model_replay.py" and prop in COMPONENT_PROPS:
+                    # the counter-model did not concretise to a failing input: look for one with the property oracles
+                    rep2 = replay_native("components.py", payload)
+                    if rep2.get("reproduced"):
+                        script, rep = "components.py", rep2
             except Exception as e:  # pragma: no cover
                 rep = {"reproduced": None, "error": str(e)}
         data = {"property": prop, "obligation": name, "task": o.get("task"), "path": o.get("path"),
@@ -151,11 +159,12 @@ def finish(prop, tier, seed, tasks, results, wall, known, extra=None):
     stuck = bool(crashes or undecided or unsupported or errors)
     # thorough tier: the same search also runs next to a decided proof (defence against an unsound stdlib model in the engine),
     # except for properties with an open known finding, which the oracles would rediscover
-    if not violations and prop in SCENARIO_PROPS and (stuck or (tier == "thorough" and prop not in open_props)):
+    search_script = "scenario.py" if prop in SCENARIO_PROPS else ("components.py" if prop in COMPONENT_PROPS else None)
+    if not violations and search_script and (stuck or (tier == "thorough" and prop not in open_props)):
         budget = 60 if tier == "thorough" else 25
         try:
             payload = {"obligation": "undecided", "model": None, "property": prop, "budget_s": budget, "seed": seed or 1}
-            rep = replay_native("scenario.py", payload, timeout=budget * 4 + 60)
+            rep = replay_native(search_script, payload, timeout=budget * 4 + 60)
         except Exception as e:  # pragma: no cover
             rep = {"reproduced": None, "error": str(e)}
         native_search = {"label": "bounded", "budget_s": budget, "scenarios_tried": rep.get("scenarios_tried"),
@@ -163,11 +172,11 @@ def finish(prop, tier, seed, tasks, results, wall, known, extra=None):
         if rep.get("reproduced"):
             name = f"native-search/{prop}/{rep.get('violated_clause') or 'property-oracle'}"
             rp = replay_dir / f"{prop}_native-search.json"
-            rp.write_text(json.dumps({"property": prop, "obligation": name, "task": "native scenario search (bounded stand-in)",
+            rp.write_text(json.dumps({"property": prop, "obligation": name, "task": f"native search {search_script} (bounded stand-in)",
                                       "why": ("the deductive check was undecided on this tree (see UNDECIDED / ENGINE-CRASH lines)" if stuck else
                                               "found by the bounded native search of the thorough tier although every obligation discharged: "
                                               "the engine's model of Python or a contract is unsound here"),
-                                      "script": "scenario.py", "payload": payload, "native_replay": rep}, indent=1, default=str))
+                                      "script": search_script, "payload": payload, "native_replay": rep}, indent=1, default=str))
             violations.append((name, rp, True))
 
     # ---- verdict
